@@ -43,6 +43,9 @@ namespace ledger {
 void push_sort_value(std::list<sort_value_t>& sort_values,
                      expr_t::ptr_op_t node, scope_t& scope)
 {
+  if (! node)
+    throw_(calc_error, _("Could not determine sorting value based an expression"));
+
   if (node->kind == expr_t::op_t::O_CONS) {
     while (node && node->kind == expr_t::op_t::O_CONS) {
       push_sort_value(sort_values, node->left(), scope);
